@@ -125,7 +125,7 @@ def run(chk, replay=None):
         if r.generated != r.distinct:
             raise vlib.Infra("C09Cases generated duplicate cases (%d/%d)" % (r.generated, r.distinct))
         t1, res = os.path.join(d, "t1.ndjson"), os.path.join(d, "cases.res")
-        ok1 = run_driver(chk, "c09.cases", cases, res, {"trace": t1, "revpass": 1}, "cases_replay", cur)
+        ok1 = run_driver(chk, "c09.cases", cases, res, {"trace": t1, "revpass": 1, "arena": 1}, "cases_replay", cur)
         chk.cov["exhaustive"] = True
         os.remove(cases)
         # ---- code -> model: seeded random messages and hostile wire images
